@@ -95,9 +95,15 @@ CLAIMED = {
           "scripted refusing backend (e2e probe), judged by the normalisation law and compared with the model.",
           "DESIGN.md 0.3 + 7 C17", "Lean 4 proof (render o parse) + law monitor + differential correspondence (rt, reply, tosmtperr, e2e probes)",
           "replies without any enhanced code on the wire (NoEnhancedCode) are outside the theorem (ambiguous on the wire) and decided by the law judge; the split of the octet stream into lines (textproto.ReadLine) is modelled, not proved"),
- "C18": C("LMTP client transactions (1-3 per connection, refused recipients, verdict vectors, with/without callback) judged (callbacks are the "
-          "current transaction's recipients) and compared with the Lean client model.",
-          "DESIGN.md 7 C18", "Lean 4 client model + monitor + differential correspondence (cconv probe)", "theorem pending"),
+ "C18": C("Proved on the client model: C18_mail_starts_clean / C18_rcpt_appends / C18_reset_clears (the client's recipient list is exactly "
+          "the recipients accepted since the last accepted MAIL - a second or later transaction never sees an earlier one's recipients), "
+          "C18_one_callback_per_recipient (the reply loop of Close hands one reply per recipient to the callback, in RCPT order, for the whole "
+          "list unless reading fails, which is an error), C18_refusal_not_lost (without callback a refusal after DATA is Close's error). "
+          "Implementation: LMTP client transactions (1-3 per connection, refused recipients, verdict vectors, with/without callback, bare and "
+          "extended LHLO replies) judged (callbacks = the current transaction's recipients; every later command gets its own reply) and "
+          "compared with the Lean client model.",
+          "DESIGN.md 0.3 + 7 C18", "Lean 4 proof (client recipient bookkeeping and reply loop) + monitor + differential correspondence (cconv probe)",
+          "that each read consumes exactly one reply of the peer is decided by the own-reply rule of the monitor and the correspondence"),
  "C19": C('Proved on the wire model: C19_short_lines_ok, C19_long_line_trips (the limiter latches once a line exceeds the limit), C19_long_line_refused (no prefix of an over-long line is executed). Implementation: line lengths around the limit at every split, endless lines, all short byte strings, every short string over quote/backslash/<>@ as MAIL/RCPT/AUTH=/ORCPT= argument, random binary, error-threshold mixes: no recovered panic, long lines never reach the backend, short lines never refused, three errors end the connection.',
           'DESIGN.md 0.3 + 7 C19', 'Lean 4 proof (line limiter) + monitors + differential correspondence (conv probe)',
           'the error-threshold rule is decided by monitor + correspondence; the bound on buffered input is a property of the modelled bufio, not observed'),
@@ -110,7 +116,7 @@ CLAIMED = {
 }
 # properties whose check audits at least one machine-checked theorem today (the others are claimed at the level of
 # their correspondence/monitor check until their theorems land)
-PROVED = {"C01", "C02", "C04", "C06", "C07", "C09", "C10", "C12", "C13", "C14", "C15", "C16", "C17", "C19", "C20"}
+PROVED = {"C01", "C02", "C04", "C06", "C07", "C09", "C10", "C12", "C13", "C14", "C15", "C16", "C17", "C18", "C19", "C20"}
 NA_REASON = "check not built yet (work in progress, see DESIGN.md section 10)"
 
 m = {"version": 1, "setup_cmd": "./setup.sh",
